@@ -40,13 +40,15 @@ RULE = ("seeded triples per format: reference = rendered record list (values mar
 
 from harness.props.c15 import JUNK_MARK, JUNK_LINE, mutate, key_str, comment_val  # noqa: E402
 
-FORMATS16 = FORMATS + ["po"]     # PO only here: its keys are (msgid, msgctxt) tuples
+FORMATS16 = FORMATS              # incl. po: its keys are (msgid, msgctxt) tuples, see key_str
 
 
 def serialize_impl(name, ref, old, new_data, po=False):
     from compare_locales.serializer import serialize, SerializationNotSupportedError
     if po:
-        new_data = {(k, None): v for k, v in new_data.items()}
+        # key_str rendering back to the (msgid, msgctxt) tuples PoEntity.key uses
+        new_data = {(k.partition("\x04")[0], k.partition("\x04")[2] or None): v
+                    for k, v in new_data.items()}
     try:
         out = serialize(name, ref, old, new_data)
     except SerializationNotSupportedError:
@@ -69,7 +71,13 @@ def wrapinfo(e, raws):
         return [1, s2l(serialize_comment(c) if c is not None else "")]
     if isinstance(e, AndroidEntity):
         # oracle: minidom clone / toxml on exactly the raw values of this case
-        return [2, [[s2l(r), s2l(e.wrap(r).all)] for r in raws]]
+        table = []
+        for r in raws:
+            try:
+                table.append([s2l(r), s2l(e.wrap(r).all)])
+            except Exception:  # noqa: the implementation's own failure is reported by the oracle
+                pass
+        return [2, table]
     pre = getattr(e, "pre_comment", None)
     vs = e.val_span
     return [0, [e.span[0], e.span[1]], [] if vs is None else [[vs[0], vs[1]]],
@@ -116,7 +124,7 @@ def special_value(fmt, rng, it):
     """a reference record whose value is empty, or re-occurs in the key, in the attached
     comment or in the closing syntax of the entity (where the value sits is known from
     the record, never from searching the text)"""
-    key, com = it[1], it[3]
+    key, com = it[1].partition("\x04")[0], it[3]
     r = rng.random()
     if r < 0.35:
         v = ""
@@ -132,7 +140,7 @@ def special_value(fmt, rng, it):
         v = 'msgstr "%s"' % v
     if fmt == "ftl" and not v:
         v = "{\"\"}"            # a Fluent message needs a value
-    return ("ent", key, v, com)
+    return ("ent", it[1], v, com)
 
 
 def gen_triple(rng, fmt=None):
@@ -144,6 +152,10 @@ def gen_triple(rng, fmt=None):
         # `#define KEY` without a value is a valid define
         ref_items = [("ent", it[1], None, it[3]) if it[0] == "ent" and rng.random() < 0.4 else it
                      for it in ref_items]
+    if fmt == "android" and rng.random() < 0.3:
+        # empty reference strings: <string name="k"></string> ("") and <string name="k"/> (None)
+        ref_items = [("ent", it[1], rng.choice(["", None]), it[3]) if it[0] == "ent"
+                     and rng.random() < 0.5 else it for it in ref_items]
     if fmt in SPECIAL_FORMATS and rng.random() < 0.3:
         ref_items = [special_value(fmt, rng, it) if it[0] == "ent" and it[2] is not None
                      and rng.random() < 0.5 else it for it in ref_items]
@@ -421,8 +433,11 @@ def run(chk, runner_ok):
     # ---- WRAP / SLICE -------------------------------------------------------------------
     wcases, wimpl, wreqs = [], [], []
     for i in range(chk.n(400, 4000)):
-        fmt = rng.choice(["properties", "dtd", "ini", "inc", "ftl", "po"])
+        fmt = rng.choice(["properties", "dtd", "ini", "inc", "ftl", "po", "android"])
         items = normalise(fmt, gen_items(fmt, rng, rng.randint(1, 6), lang="EN_"))
+        if fmt == "android" and rng.random() < 0.6:
+            items = [("ent", it[1], rng.choice(["", None]), it[3]) if it[0] == "ent"
+                     and rng.random() < 0.5 else it for it in items]
         if fmt in SPECIAL_FORMATS and rng.random() < 0.5:
             items = [special_value(fmt, rng, it) if it[0] == "ent" and rng.random() < 0.5 else it
                      for it in items]
@@ -439,6 +454,8 @@ def run(chk, runner_ok):
             if ckind(e) != K_ENTITY:
                 continue
             raw = rng.choice(["", "N new", "x\ny", "Ünï", key_str(e.key), ">"])
+            if fmt == "android":
+                raw = rng.choice(["", "N new", "Ünï", key_str(e.key)])
             if fmt == "po":
                 raw = 'msgstr "%s"' % raw.replace("\n", " ")
             w = None
@@ -456,9 +473,10 @@ def run(chk, runner_ok):
             # place is known from the record); valueless .inc defines are the known finding
             it = recs.get(key_str(e.key))
             if not mutated and fmt != "ftl" and it is not None:
-                if it[2] is None:
+                if it[2] is None and fmt == "inc":
                     continue
-                want = (render_comment(fmt, it[3]) + "\n" if it[3] is not None else "") + \
+                ind = "  " if fmt == "android" else ""
+                want = (render_comment(fmt, it[3]) + "\n" + ind if it[3] is not None else "") + \
                     render_entity(fmt, it[1], raw, style)
                 if w is None or w.all != want or w.raw_val != raw or key_str(w.key) != it[1]:
                     chk.fail("wrap-text", case,
